@@ -1,12 +1,7 @@
 UNITS = {"c02node": dict(pkg="./pkg/controller/multi-ip/node", tags="default_build", shrinktime="40s")}
 
-# candidate findings reported to the lead; until they are entered into known_findings.json
-# (or repaired) their guards are switched on through this variable (see c08Known in
-# zz_verif_c02_engine_test.go). Remove an id here once it is listed or fixed.
-_PENDING = {}
-
-_W = ["DoubleFaultOrphan", "IdleENIKept", "GreedyDemand", "RDMAIdle", "DualStackImbalance", "LostWrite", "RollbackRecordLacksMode",
-      "SyncMergeNilMap", "SyncDropsDetachedENI", "EFLOPartialKeyCollision", "NegativeSlotCount"]
+# deterministic witnesses of the open findings listed in known_findings.json
+_W = ["DoubleFaultOrphan", "GreedyDemand", "RDMAIdle", "DualStackImbalance", "LostWrite", "SyncDropsDetachedENI", "EFLOPartialKeyCollision"]
 
 PROPS = {
     "C08": dict(
@@ -31,9 +26,9 @@ PROPS = {
         ],
         level_text="fault placements over the cloud-call and status-write sequence of each history are sampled by the generator (per call kind: error before effect, after effect, partial result; per error code), not exhaustively enumerated; "
                    "on every explored history the monitors, the per-pass rollback check and, after a forced full sync plus healthy rounds, convergence / band / record == cloud / no orphan held outside the listed findings",
-        level_note="11 candidate defects of the pool balancer, the sync merge and the rollback path are guarded as listed/pending findings, each with a deterministic witness; 7 of them are repaired by a 60-line patch on which the check passes with those guards off. "
+        level_note="7 open findings of the pool balancer, the sync path and the rollback path (known_findings.json) are excluded by class predicates, each with a deterministic witness; 6 further defects found by this check were repaired in /repo and are covered without guard. "
                    "Liveness is bounded-step (40 rounds) under a harness-driven schedule; EFLO is simulated at the same interface with its IPName semantics",
-        tests=[dict(unit="c02node", test="TestVerifC08Loop", quick=8000, thorough=150000, timeout_quick=900, env=_PENDING)] +
-              [dict(unit="c02node", test="TestVerifC08Known" + w, quick=1, thorough=1, shards=1, env=_PENDING) for w in _W],
+        tests=[dict(unit="c02node", test="TestVerifC08Loop", quick=8000, thorough=150000, timeout_quick=900)] +
+              [dict(unit="c02node", test="TestVerifC08Known" + w, quick=1, thorough=1, shards=1) for w in _W],
     ),
 }
